@@ -112,11 +112,16 @@ def main(argv=None):
   ap.add_argument("--profile", help="override profile name (default: the property's profile)")
   ap.add_argument("--keep-going", action="store_true", help="report all violations (triage)")
   ap.add_argument("--digests", help="write {run index: digest of event log + final state} here")
+  ap.add_argument("--isolated-run", help="(internal) profile:seed:index:tier:limit, one run in this process")
+  ap.add_argument("--events-out", help="(internal) with --isolated-run: log events here before executing them")
   args = ap.parse_args(argv)
 
   boot.boot()
   from .profiles import get_profile, profile_for_property
   from . import run as runmod
+
+  if args.isolated_run:
+    return runmod.isolated_main(args.isolated_run, args.events_out)
 
   if args.replay:
     rf, r = replay_file(args.replay, quiet=args.json)
